@@ -1,5 +1,7 @@
 import HH.WasmB
 import HH.Proofs.PortableSpec
+import HH.Proofs.X86Lemmas
+import Std.Tactic.BVDecide
 import Mathlib.Tactic.IntervalCases
 /-!
 # The Wasm SIMD model refines the portable model (step lemmas, valid for ALL register states)
@@ -10,49 +12,67 @@ namespace HH
 namespace WasmB
 open Wasm
 
-@[simp] theorem lo_new (h l : BitVec 64) : lo (v2new h l) = l := by
-  unfold lo v2new u64x2_extract_lane lane64 u64x2; bv_decide
-@[simp] theorem hi_new (h l : BitVec 64) : hi (v2new h l) = h := by
-  unfold hi v2new u64x2_extract_lane lane64 u64x2; bv_decide
-theorem new_hi_lo (r : BitVec 128) : v2new (hi r) (lo r) = r := by
-  unfold hi lo v2new u64x2_extract_lane lane64 u64x2; bv_decide
+/-! bridge to the lane kit of `X86Lemmas` (a register is a `BitVec 128` in both models): wasm lane 0 is the
+low half, and the crate's `V2x64U` keeps its *high* word there -/
+theorem lane64_0 (r : BitVec 128) : lane64 r 0 = X86.lo64 r := by first | rfl | (unfold lane64 X86.lo64; bv_lsb)
+theorem lane64_1 (r : BitVec 128) : lane64 r 1 = X86.hi64 r := by first | rfl | (unfold lane64 X86.hi64; bv_lsb)
+theorem u64x2_eq (a0 a1 : BitVec 64) : u64x2 a0 a1 = X86.mk a1 a0 := rfl
+theorem u32x4_eq (a0 a1 a2 a3 : BitVec 32) : u32x4 a0 a1 a2 a3 = X86.mk32 a3 a2 a1 a0 := rfl
+theorem lane32_eq (r : BitVec 128) (i : Nat) : lane32 r i = X86.lane32 r i := rfl
+theorem lo_eq (r : BitVec 128) : lo r = X86.hi64 r := lane64_1 r
+theorem hi_eq (r : BitVec 128) : hi r = X86.lo64 r := lane64_0 r
+theorem v2new_eq (h l : BitVec 64) : v2new h l = X86.mk l h := rfl
+
+@[simp] theorem lo_new (h l : BitVec 64) : lo (v2new h l) = l := by rw [lo_eq, v2new_eq, X86.hi64_mk]
+@[simp] theorem hi_new (h l : BitVec 64) : hi (v2new h l) = h := by rw [hi_eq, v2new_eq, X86.lo64_mk]
+theorem new_hi_lo (r : BitVec 128) : v2new (hi r) (lo r) = r := by rw [lo_eq, hi_eq, v2new_eq, X86.mk_lo_hi]
 theorem ext128 (a b : BitVec 128) (h1 : lo a = lo b) (h2 : hi a = hi b) : a = b := by
   rw [← new_hi_lo a, ← new_hi_lo b, h1, h2]
 @[simp] theorem lo_xor (a b : BitVec 128) : lo (v128_xor a b) = lo a ^^^ lo b := by
-  unfold lo v128_xor u64x2_extract_lane lane64; bv_decide
+  simp only [lo_eq]; exact X86.hi64_xor a b
 @[simp] theorem hi_xor (a b : BitVec 128) : hi (v128_xor a b) = hi a ^^^ hi b := by
-  unfold hi v128_xor u64x2_extract_lane lane64; bv_decide
+  simp only [hi_eq]; exact X86.lo64_xor a b
 @[simp] theorem lo_add (a b : BitVec 128) : lo (u64x2_add a b) = lo a + lo b := by
-  unfold lo u64x2_add u64x2_extract_lane lane64 u64x2; bv_decide
+  simp only [lo_eq, u64x2_add, u64x2_eq, X86.hi64_mk, lane64_1]
 @[simp] theorem hi_add (a b : BitVec 128) : hi (u64x2_add a b) = hi a + hi b := by
-  unfold hi u64x2_add u64x2_extract_lane lane64 u64x2; bv_decide
+  simp only [hi_eq, u64x2_add, u64x2_eq, X86.lo64_mk, lane64_0]
+
+theorem rot_lanes (v : BitVec 128) : rotateBy32 v = v2new ((hi v).rotateLeft 32) ((lo v).rotateLeft 32) := by
+  have : rotateBy32 v = X86.shuffle_epi32 v 177 := by
+    simp only [rotateBy32, u32x4_shuffle, sel32, u32x4_eq, lane32_eq, X86.shuffle_epi32, Nat.reduceLT, ↓reduceIte, Nat.reduceShiftRight, Nat.reduceMod]
+  rw [this, X86.shuffle_epi32_rot, v2new_eq, lo_eq, hi_eq]
+
+theorem mask_lanes : u32x4 0xFFFFFFFF 0 0xFFFFFFFF 0 = X86.mk 0xFFFFFFFF#64 0xFFFFFFFF#64 := by decide
+theorem lo64_and (a b : BitVec 128) : X86.lo64 (a &&& b) = X86.lo64 a &&& X86.lo64 b := by unfold X86.lo64; ext i hi; simp
+theorem hi64_and (a b : BitVec 128) : X86.hi64 (a &&& b) = X86.hi64 a &&& X86.hi64 b := by unfold X86.hi64; ext i hi; simp
+
+theorem mulEpu32_lanes (a b : BitVec 128) :
+    mulEpu32 a b = X86.mk ((X86.hi64 a &&& 0xFFFFFFFF#64) * (X86.hi64 b &&& 0xFFFFFFFF#64)) ((X86.lo64 a &&& 0xFFFFFFFF#64) * (X86.lo64 b &&& 0xFFFFFFFF#64)) := by
+  simp only [mulEpu32, mask_lanes, u64x2_mul, u64x2_eq, v128_and, lane64_0, lane64_1, lo64_and, hi64_and, X86.lo64_mk, X86.hi64_mk]
 
 theorem mul_rot (a b : BitVec 128) :
     mulEpu32 a (rotateBy32 b) = v2new (P.mul32 (hi a) (hi b)) (P.mul32 (lo a) (lo b)) := by
-  apply ext128 <;>
-  · unfold mulEpu32 rotateBy32 u32x4_shuffle sel32 u64x2_mul v128_and u32x4 P.mul32 lo hi v2new u64x2_extract_lane lane64 lane32 u64x2
-    simp
-    bv_decide
+  rw [rot_lanes, mulEpu32_lanes]
+  simp only [v2new_eq, lo_eq, hi_eq, X86.lo64_mk, X86.hi64_mk, P.mul32, X86.rot32_low]
+
+theorem srli_lanes (b : BitVec 128) (k : Nat) : srliEpi64 b k = X86.mk (X86.hi64 b >>> (k % 64)) (X86.lo64 b >>> (k % 64)) := by
+  simp only [srliEpi64, u64x2_shr, u64x2_eq, lane64_0, lane64_1]
 
 theorem mul_srli (a b : BitVec 128) :
     mulEpu32 a (srliEpi64 b 32) = v2new (P.mul32 (hi a) (hi b)) (P.mul32 (lo a) (lo b)) := by
-  apply ext128 <;>
-  · unfold mulEpu32 srliEpi64 u64x2_shr u64x2_mul v128_and u32x4 P.mul32 lo hi v2new u64x2_extract_lane lane64 u64x2
-    simp
-    bv_decide
+  rw [srli_lanes, mulEpu32_lanes]
+  simp only [v2new_eq, lo_eq, hi_eq, X86.lo64_mk, X86.hi64_mk, P.mul32, Nat.reduceMod, X86.shr32_low]
 
-theorem rot_lanes (v : BitVec 128) : rotateBy32 v = v2new ((hi v).rotateLeft 32) ((lo v).rotateLeft 32) := by
-  apply ext128 <;>
-  · unfold rotateBy32 u32x4_shuffle sel32 u32x4 lo hi v2new u64x2_extract_lane lane64 lane32 u64x2
-    simp
-    bv_decide
 
+set_option maxRecDepth 100000 in
+set_option maxHeartbeats 2000000 in
 theorem zipper_lanes (v : BitVec 128) :
     zipperMerge v = v2new (P.zipHi (hi v) (lo v)) (P.zipLo (hi v) (lo v)) := by
-  apply ext128 <;>
-  · unfold zipperMerge u8x16_shuffle selByte byteAt P.zipHi P.zipLo lo hi v2new u64x2_extract_lane lane64 u64x2
-    simp
-    bv_decide
+  simp only [zipperMerge, u8x16_shuffle, selByte, byteAt, List.getD_cons_zero, List.getD_cons_succ, Nat.reduceLT, ↓reduceIte,
+    Nat.reduceSub, Nat.reduceMul, v2new_eq, lo_eq, hi_eq]
+  unfold P.zipHi P.zipLo X86.mk X86.lo64 X86.hi64
+  bv_bits
+
 
 def lanesOfRegs (pH pL : BitVec 128) : V4 := ⟨lo pL, hi pL, lo pH, hi pH⟩
 
@@ -112,12 +132,22 @@ theorem vsize_add (v : BitVec 128) (n : Nat) (h : n < 32) :
   · simp only [hi_add, hi_new]; congr 1
     interval_cases n <;> decide
 
-set_option maxRecDepth 100000 in
+theorem or_eq (a b : BitVec 128) : v128_or a b = X86.or_si128 a b := rfl
+
 theorem rotate32By_lanes (v : BitVec 128) (n : Nat) (h : n < 32) :
     rotate32By v n = v2new (P.rot32Lane n (hi v)) (P.rot32Lane n (lo v)) := by
-  apply ext128 <;>
-  · unfold rotate32By P.rot32Lane u32x4_shl u32x4_shr v128_or u32x4 lo hi v2new u64x2_extract_lane lane64 lane32 u64x2
-    interval_cases n <;> simp <;> bv_decide
+  have hn : n % 32 = n := Nat.mod_eq_of_lt h
+  by_cases h0 : n = 0
+  · subst h0
+    have hr : (2 ^ 32 + 32 - 0) % 2 ^ 32 % 32 = 0 := by decide
+    simp only [rotate32By, u32x4_shl, u32x4_shr, hr, Nat.zero_mod, BitVec.shiftLeft_zero, BitVec.ushiftRight_zero, u32x4_eq, lane32_eq,
+      X86.mk32_lanes, or_eq, X86.or_si128, BitVec.or_self, X86.rot32Lane_zero, v2new_eq, lo_eq, hi_eq, X86.mk_lo_hi]
+  · have hr : (2 ^ 32 + 32 - n) % 2 ^ 32 % 32 = 32 - n := by omega
+    simp only [rotate32By, u32x4_shl, u32x4_shr, hn, hr, u32x4_eq, lane32_eq, or_eq, X86.or_mk32, v2new_eq, lo_eq, hi_eq]
+    have := X86.rot_mk32 v n h0 h
+    simp only [X86.rot32] at this
+    rw [this]
+
 
 theorem updateRemainder_refines (x : State) (hb : x.buffer.buf.length = 32) (hi' : x.buffer.idx < 32) :
     toPortable (updateRemainder x) =
@@ -136,13 +166,35 @@ theorem finalizeCommon_refines (n : Nat) (x : State) (hx : x.buffer.Inv) :
   · simp [h0]
   · simp [h0, updateRemainder_refines x hb hi']
 
+theorem lo_srli (a : BitVec 128) (k : Nat) (hk : k < 64) : lo (srliEpi64 a k) = lo a >>> k := by
+  simp only [lo_eq, srli_lanes, X86.hi64_mk, Nat.mod_eq_of_lt hk]
+theorem hi_srli (a : BitVec 128) (k : Nat) (hk : k < 64) : hi (srliEpi64 a k) = hi a >>> k := by
+  simp only [hi_eq, srli_lanes, X86.lo64_mk, Nat.mod_eq_of_lt hk]
+theorem lo_slli8 (a : BitVec 128) : lo (slli8 a) = 0 := by
+  simp only [slli8, u64x2_shuffle, sel64, Nat.reduceLT, ↓reduceIte, Nat.reduceSub, u64x2_eq, lo_eq, X86.hi64_mk, lane64_0, X86.lo64_mk]
+theorem hi_slli8 (a : BitVec 128) : hi (slli8 a) = lo a := by
+  simp only [slli8, u64x2_shuffle, sel64, Nat.reduceLT, ↓reduceIte, Nat.reduceSub, u64x2_eq, hi_eq, lo_eq, X86.lo64_mk, lane64_1]
+theorem lo_andnot (a b : BitVec 128) : lo (v128_andnot a b) = lo a &&& ~~~(lo b) := by
+  simp only [lo_eq]; unfold X86.hi64 v128_andnot; bv_lsb
+theorem hi_andnot (a b : BitVec 128) : hi (v128_andnot a b) = hi a &&& ~~~(hi b) := by
+  simp only [hi_eq]; unfold X86.lo64 v128_andnot; bv_lsb
+theorem signBit_lo : lo (i32x4_replace_lane 1 (v2new 0 0) 0x80000000#32) = 0 := by decide
+theorem signBit_hi : hi (i32x4_replace_lane 1 (v2new 0 0) 0x80000000#32) = 0x8000000000000000#64 := by decide
+
+theorem modLaneW (xh xl ih il : BitVec 64) :
+    il ^^^ (xl <<< 2) ^^^ 0 ^^^ ((xl <<< 1) &&& ~~~(0 : BitVec 64)) ^^^ 0 = (P.moduleReduction xh xl ih il).1 ∧
+    ih ^^^ (xh <<< 2) ^^^ (xl >>> 62) ^^^ ((xh <<< 1) &&& ~~~(0x8000000000000000#64)) ^^^ (xl >>> 63) = (P.moduleReduction xh xl ih il).2 := by
+  unfold P.moduleReduction
+  constructor <;> bv_lsb
+
 theorem modularReduction_refines (x init : BitVec 128) :
     (lo (modularReduction x init), hi (modularReduction x init))
       = P.moduleReduction (hi x) (lo x) (hi init) (lo init) := by
-  unfold modularReduction P.moduleReduction andNot slli8 u64x2_shuffle sel64 i32x4_replace_lane srliEpi64 u64x2_shr u64x2_add
-    v128_xor v128_andnot u32x4 lo hi v2new u64x2_extract_lane lane64 lane32 u64x2
-  simp
-  constructor <;> bv_decide
+  have a := modLaneW (hi x) (lo x) (hi init) (lo init)
+  simp only [modularReduction, andNot, lo_xor, hi_xor, lo_slli8, hi_slli8, lo_srli _ 62 (by decide), lo_srli _ 63 (by decide),
+    hi_srli _ 62 (by decide), hi_srli _ 63 (by decide), lo_andnot, hi_andnot, lo_add, hi_add, X86.add_self_shl, X86.shl1_shl1,
+    signBit_lo, signBit_hi]
+  exact Prod.ext a.1 a.2
 
 theorem finalize64_refines (x : State) (hx : x.buffer.Inv) :
     finalize64 x = P.out64 (P.finAbs 4 (toPortable x.r, x.buffer.asSlice)) := by
